@@ -156,13 +156,13 @@ PROPS['C14'] = dict(
 
 PROPS['C17'] = dict(
     level='other',
-    claim='(a) every shipped platform entry (63, re-read on every run), with the ResourceConfig defaults applied, names a resource manager, launch methods, scheduler, executor and agent configuration that exist in the factories / on disk, has a defined default schema and well-formed schemas; the factory key sets and classes are read from the AST: decided exhaustively. (b) the node/core/GPU sizing arithmetic of _prepare_pilot is not yet under contract',
-    note='sizing arithmetic (PMGRLaunchingComponent._prepare_pilot slice) not built yet',
-    assumptions=['A11'],
+    claim='(a) every shipped platform entry (63, re-read on every run), with the ResourceConfig defaults applied, names a resource manager, launch methods, scheduler, executor and agent configuration that exist in the factories / on disk, has a defined default schema and well-formed schemas; the factory key sets and classes are read from the AST: decided exhaustively. (b) the node-count arithmetic of _prepare_pilot (fragment): an explicit node count is kept; a derived one covers the requested cores and GPUs with the cores / GPUs available per node and is the smallest that does; no usable core count with an explicit node count is refused',
+    note='blocked cores / SMT scaling before the fragment, backup nodes, and the hand-over of the same figures to the agent configuration and the job description are not under contract (the rest of _prepare_pilot: 400 lines of file system and configuration plumbing)',
+    assumptions=['A1', 'A2', 'A11'],
     explanation='finite obligation family over the shipped configuration files x factories',
     clauses={'every platform x schema resolves to existing code': 'P (finite, exhaustive)',
-             'smallest number of whole nodes covering cores/GPUs + backup': 'not yet built',
-             'agent told the same figures': 'not yet built'})
+             'smallest number of whole nodes covering cores/GPUs': 'P (fragment); backup nodes not covered',
+             'agent told the same figures': 'N'})
 
 PROPS['C18'] = dict(
     level='other',
@@ -210,7 +210,7 @@ PROPS['C07'] = dict(
 PROPS['C08'] = dict(
     level='other',
     claim='cancel handling: BaseComponent.is_canceled (exactly the named tasks are reported CANCELED once and the request consumed, others untouched), the executor\'s cancel command (only named uids are passed to cancel_task, bystanders keep their entry and are not finished), Popen.cancel_task (finishes only a task the executor still owns, once, as CANCELED; everything else untouched) are verified for every state; one recorded finding: a placed task canceled at the executor intake is not released',
-    note='TaskManager.cancel_tasks and the raptor backlog branch of the scheduler control_cb are not yet under contract; end-to-end composition across components is assumed (message transport)',
+    note='the raptor backlog branch of the scheduler control_cb is not yet under contract; end-to-end composition across components is assumed (message transport)',
     assumptions=['A2', 'A4', 'A5', 'A7', 'A9', 'A11'],
     explanation='frame contracts at each component + recorded finding (known_findings.json)',
     clauses={'named task met later is canceled instead of processed': 'P',
